@@ -320,6 +320,52 @@ let writer_line line =
       Printf.sprintf "%d %08X" (List.length out) (crc32_bytes 0 out)
   | _ -> "unknown"
 
+(* ------------------------------------------------------------------ collector (C05 C14 C15 C16) *)
+let parse_ctok t =
+  let k = t.[0] and v = String.sub t 1 (String.length t - 1) in
+  let n s = n_of_int (int_of_string s) in
+  match k with
+  | 'S' -> CS_seen (n v) | 'R' -> CS_filtered (n v) | 'P' -> CS_payload (n v) | 'H' -> CS_hbfs (n v)
+  | 'T' -> CS_trigger (n ("0x" ^ v))
+  | 'A' -> (match List.map n (String.split_on_char '.' v) with
+            | [ a; b; c; d; e; f; g ] -> CS_alpide { rf_trailers = a; rf_busy_viol = b; rf_overrun = c; rf_fatal = d; rf_flushed = e; rf_strobe = f; rf_busy_trans = g }
+            | _ -> failwith "A")
+  | 'L' -> CS_link (n v) | 'F' -> CS_fee (n v)
+  | 'Y' -> (match String.split_on_char '.' v with [ l; s ] -> CS_layer_stave (n l, n s) | _ -> failwith "Y")
+  | 'V' -> CS_version (n v) | 'D' -> CS_format (n v) | 'I' -> CS_sysid (n v) | 'G' -> CS_run_trigger (n v)
+  | 'E' -> (match String.split_on_char '.' v with
+            | off :: code :: body :: rest ->
+                CS_error { m_off = n ("0x" ^ off); m_codes = [ n code ]; m_body = n body;
+                           m_fee = (match rest with [ f ] -> Some (n f) | _ -> None) }
+            | _ -> failwith "E")
+  | 'X' -> CS_fatal { m_off = N0; m_codes = []; m_body = n v; m_fee = None }
+  | _ -> failwith ("token " ^ t)
+
+let ns l = String.concat "," (List.map dec l)
+let fmt_emsg m = Printf.sprintf "%X.%s.%s" (int_of_n m.m_off) (ns m.m_codes) (dec m.m_body)
+let opt = function Some x -> dec x | None -> "-"
+let fmt_cstate s =
+  Printf.sprintf "C:%s L:%s F:%s Y:%s O:%s,%s,%s,%s E:%s T:%s U:%s W:%s Z:%s X:%s"
+    (ns s.k_counters) (ns s.k_links) (ns s.k_fees)
+    (String.concat "," (List.map (fun (l, st) -> dec l ^ "." ^ dec st) s.k_layer_staves))
+    (opt s.k_version) (opt s.k_format) (opt s.k_sysid) (opt s.k_run_trigger)
+    (String.concat ";" (List.map fmt_emsg s.k_errors)) (dec s.k_total) (ns s.k_unique)
+    (match s.k_staves_err with None -> "-" | Some l -> String.concat "," (List.map (fun (l, st) -> dec l ^ "." ^ dec st) l))
+    (match s.k_fatal with None -> "-" | Some m -> dec m.m_body)
+    (b2s s.k_set_twice)
+
+let collector_line line =
+  let head, body = split_head line in
+  let h = split_ws head in
+  let mute = List.nth h 0 = "1" in
+  let sched = if List.length h > 1 && List.nth h 1 <> "-" then List.map int_of_string (String.split_on_char ',' (List.nth h 1)) else [] in
+  let streams = Array.of_list (List.map (fun s -> ref (List.map parse_ctok (split_ws s))) (String.split_on_char '|' body)) in
+  let arrival = ref [] in
+  List.iter (fun i -> match !(streams.(i)) with x :: r -> arrival := x :: !arrival; streams.(i) := r | [] -> ()) sched;
+  Array.iter (fun s -> List.iter (fun x -> arrival := x :: !arrival) !s; s := []) streams;
+  let a = List.rev !arrival in
+  fmt_cstate (finalize error_sort_when_muted mute (collect_all a))
+
 let rdhrt_line line =
   let b = bytes_of_hex (String.trim line) in
   let r = decode_rdh b in
@@ -339,6 +385,7 @@ let () =
     | "written" -> written_line
     | "rdhrt" -> rdhrt_line
     | "writer" -> writer_line
+    | "collector" -> collector_line
     | "wordspec" -> wordspec_line
     | "rdhspec" -> rdhspec_line
     | _ -> prerr_endline ("unknown stream " ^ stream); exit 2
